@@ -27,9 +27,9 @@ ASSUMPTIONS = [
     "an optional regex group that did not participate carries no text: nothing is asserted about its offsets",
 ]
 REQUIRED = {"match.instance_matches": {"quick": 3000, "thorough": 150000}, "args.values_and_passing": {"quick": 3000, "thorough": 150000},
-            "args.span_invariant": {"quick": 5000, "thorough": 250000}, "nomatch.near_miss_rejected": {"quick": 6000, "thorough": 300000},
+            "args.span_invariant": {"quick": 5000, "thorough": 100000}, "nomatch.near_miss_rejected": {"quick": 6000, "thorough": 300000},
             "registry.lookup_matches_model": {"quick": 3000, "thorough": 150000}, "registry.ambiguity_iff_model": {"quick": 800, "thorough": 40000},
-            "registry.same_definition_ignored": {"quick": 50, "thorough": 2000}, "modules.default_matcher_reset": {"quick": 10, "thorough": 100},
+            "registry.same_definition_ignored": {"quick": 50, "thorough": 2000}, "modules.default_matcher_reset": {"quick": 100, "thorough": 800},
             "wrapper.span_invariant_on_every_match": {"quick": 5000, "thorough": 250000}}
 REQUIRED_SEEN = {"matcher_kind": KINDS, "token_kind": ["lit", "named", "int", "word", "float", "custom", "many", "optional", "rnamed", "runnamed", "roptional"]}
 EXHAUSTIVE = {"quick": True, "thorough": True}
@@ -510,6 +510,59 @@ def module_loading(lab, mon, rng):
         matchers.use_default_step_matcher("parse")
         shutil.rmtree(root, ignore_errors=True)
 
+def module_loading_random(lab, mon, rng):
+    """Generated step directories: k modules, each optionally selecting a matcher; one without a selection must get the default
+    matcher whatever the module loaded before it selected."""
+    from behave import runner_util, step_registry, matchers
+    root = tempfile.mkdtemp(prefix="bvm-steps-")
+    saved = {k: list(v) for k, v in step_registry.registry.steps.items()}
+    default = rng.choice(["parse", "parse", "re", "cfparse"])
+    k = rng.randint(2, 6)
+    plan, want = [], {}
+    try:
+        for i in range(k):
+            choice = rng.choice([None, None, "re", "parse", "cfparse", "re0"])
+            effective = choice or default
+            word = "w%d%s" % (i, rng.choice("abc"))
+            if effective in ("re", "re0"):
+                pattern, value = "%s (?P<n>\\d+) \\(x\\)" % word, "7%d" % i
+            else:
+                pattern, value = "%s {n:d} (x)" % word, 70 + i
+            text = "%s 7%d (x)" % (word, i)
+            src = "from behave import step, use_step_matcher\n"
+            if choice:
+                src += "use_step_matcher(%r)\n" % choice
+            src += "@step(%r)\ndef s%d(context, n):\n    context.got = (%r, n)\n" % (pattern.replace("\\\\", "\\"), i, word)
+            with open(os.path.join(root, "m%02d_%s.py" % (i, word)), "w") as fh:
+                fh.write(src)
+            plan.append((choice, effective, word))
+            want[text] = (word, value)
+        step_registry.registry.clear()
+        matchers.use_default_step_matcher(default)
+        runner_util.load_step_modules([root])
+        reg = step_registry.registry
+        results = {}
+        for text in want:
+            m = reg.find_match(FakeStep("given", text))
+            ctx = FakeContext()
+            if m is not None and not isinstance(m, matchers.MatchWithError):
+                m.run(ctx)
+                results[text] = getattr(ctx, "got", None)
+            else:
+                results[text] = None
+        mon.case(("modules", default, tuple(p[0] for p in plan)), True)
+        mon.seen("module_default", default)
+        mon.check("modules.default_matcher_reset", results == want,
+                  lambda: dict(default=default, modules=[list(p) for p in plan], got={k: repr(v) for k, v in results.items()},
+                               want={k: repr(v) for k, v in want.items()}))
+        cur = matchers.get_step_matcher_factory().current_matcher
+        mon.check("modules.matcher_after_loading_is_default", cur is matchers.get_step_matcher_factory().step_matcher_class_mapping[default],
+                  lambda: dict(current=repr(cur), default=default))
+    finally:
+        step_registry.registry.steps = saved
+        matchers.use_default_step_matcher("parse")
+        shutil.rmtree(root, ignore_errors=True)
+
 
 def run(spec, mon):
     lab = Lab(mon)
@@ -537,6 +590,8 @@ def run(spec, mon):
         hist = [(rng.choice(TYPES), rng.randrange(len(POOL)), rng.choice("fgh")) for _ in range(L)]
         run_history(lab, mon, hist, "random")
     module_loading(lab, mon, rng)
+    for i in range(8 if tier == "quick" else 60):
+        module_loading_random(lab, mon, rng)
 
 
 def replay(case, mon):
